@@ -26,7 +26,7 @@ static struct vf_handle vf_h[VF_NH];
 static int vf_open_count, vf_fopen_calls, vf_fopen_fail; /* vf_fopen_fail: next fopen returns NULL */
 static int vf_bad_use;                    /* use of a closed/invalid handle */
 static int vf_is_mine(VF* f) { for (int i = 0; i < VF_NH; i++) if ((void*)f == (void*)&vf_h[i]) return 1; return 0; }
-#ifdef REAL
+#if defined(REAL) && defined(WRAP_FILES)
 /* the real code also writes its log messages to stderr through the same libc entry points: pass those through */
 uint64_t __real_fwrite(uint8_t*, uint64_t, uint64_t, VF*); uint32_t __real_fputc(uint32_t, VF*); uint32_t __real_putc(uint32_t, VF*);
 #define VF_PASS(call) if (!vf_is_mine(f)) return call
